@@ -89,11 +89,42 @@ def make_interp(desc):
     return pb.BkgIDWInterpolator(**kw)
 
 
+MASK_DTYPES = ['bool', 'uint8', 'int16', 'int64', 'float64', 'float32']
+MASK_LAYOUTS = ['C', 'F', 'view']
+PLAIN = ('bool', 'C')
+
+
+def materialize_mask(m, rep):
+    """The array actually handed to Background2D for the boolean mask `m` (kept boolean in the spec for
+    the harness): dtype (bool, or a 0/1 integer / float plane as data-quality masks usually are) and
+    memory layout (C order, Fortran order, strided view into a larger array)."""
+    if m is None:
+        return None
+    dt, layout = rep
+    a = np.asarray(m, bool).astype(dt)
+    if layout == 'F':
+        a = np.asfortranarray(a)
+    elif layout == 'view':
+        big = np.ones((2 * a.shape[0] + 1, 2 * a.shape[1] + 3), a.dtype)
+        big[1::2, 2:2 * a.shape[1] + 2:2] = a
+        a = big[1::2, 2:2 * a.shape[1] + 2:2]
+    return a
+
+
+def _draw_mask_repr(rng, allow_float=True):
+    r = rng.random()
+    if r < 0.4:
+        dt = 'bool'
+    else:
+        dt = _pick(rng, ['uint8', 'uint8', 'int16', 'int64', 'int64'] + (['float64', 'float32'] if allow_float else []))
+    return (dt, _pick(rng, ['C', 'C', 'F', 'view']))
+
+
 def b2d_kwargs(spec, **over):
     s = dict(spec)
     s.update(over)
-    kw = dict(mask=None if s['mask'] is None else s['mask'].copy(),
-              coverage_mask=None if s['cov'] is None else s['cov'].copy(),
+    kw = dict(mask=materialize_mask(s['mask'], s.get('mask_repr', PLAIN)),
+              coverage_mask=materialize_mask(s['cov'], s.get('cov_repr', PLAIN)),
               fill_value=s['fill'], exclude_percentile=s['p'], filter_size=s['fsize'],
               filter_threshold=s['thr'], sigma_clip=make_sigma_clip(s['sc']),
               bkg_estimator=make_estimator(s['bkg']), bkgrms_estimator=make_estimator(s['rms']),
@@ -449,6 +480,11 @@ def make_scene(rng, cls):
     spec = dict(data=data, box=(by, bx) if (by != bx or rng.random() < 0.5) else by,
                 mask=mask, cov=cov, fill=fill, p=p, fsize=fsize, thr=None, sc=sc,
                 bkg=bkg, rms=rms, interp=interp)
+    # representation of the two masks, drawn independently in every class. `mask` is accepted by the
+    # unchanged library in any numeric dtype (non-zero = masked); a floating coverage_mask is rejected
+    # (IndexError when the map is built), so coverage_mask is drawn from bool and the integer dtypes.
+    spec['mask_repr'] = _draw_mask_repr(rng, allow_float=True)
+    spec['cov_repr'] = _draw_mask_repr(rng, allow_float=False)
     meta.update(thr_mode=thr_mode, dtype=dt, shape=[ny, nx], box=[by, bx])
     return spec, meta
 
@@ -457,6 +493,8 @@ def describe(spec, meta):
     return dict(shape=meta['shape'], box=meta['box'], dtype=meta['dtype'],
                 mask=None if spec['mask'] is None else int(spec['mask'].sum()),
                 cov=None if spec['cov'] is None else int(spec['cov'].sum()),
+                mask_repr=list(spec.get('mask_repr', PLAIN)) if spec['mask'] is not None else None,
+                cov_repr=list(spec.get('cov_repr', PLAIN)) if spec['cov'] is not None else None,
                 fill=spec['fill'], p=spec['p'], fsize=spec['fsize'], thr_mode=meta['thr_mode'],
                 sc=spec['sc'], bkg=[spec['bkg'][0], spec['bkg'][1], spec['bkg'][2]],
                 rms=[spec['rms'][0], spec['rms'][1], spec['rms'][2]],
